@@ -283,6 +283,10 @@ class Engine:
         elif kind == 'bool':
             st.wr(attr, ref, self.ev.truthy(st, v) if not isinstance(v, VBool) else v.t, B)
         elif kind == 'str':
+            if isinstance(v, VAny):
+                # an opaque value: the field's str view becomes unknown (over-approximation)
+                st.wr(attr, ref, z3.String(fresh_name('opq_' + attr)), S)
+                return
             if not isinstance(v, VStr):
                 raise OutOfSubset('storing %s into str field %s' % (kind_of(v), attr))
             st.wr(attr, ref, v.t, S)
@@ -737,7 +741,7 @@ class Engine:
             s1.env = dict(s1.env)
             s1.env[tgt] = self.elem_value(s1.lget(seq.t, i, seq.ek), seq.ek)
             val = self.ev.ev(s1, g.elt)
-            for cond, exc, site in s1.pend:
+            for cond, exc, site, _v, _f in s1.pend:
                 self.oblige('join%d:safe:%s' % (k, exc), s1, z3.Not(cond))
                 s1.pc.append(z3.Not(cond))
             s1.pend = []
